@@ -19,7 +19,7 @@ ID = "C14"
 LEVEL = "exploration"
 BATCH = 25
 PROBES_EXPECTED = ['probe:version-1', 'probe:version-2', 'probe:version-3', 'probe:restart-compared', 'probe:reply-with-error']
-TIERS = {"quick": {"runs": 6000, "wall": 50}, "thorough": {"runs": 250000, "wall": 840}}
+TIERS = {"quick": {"runs": 12000, "wall": 50}, "thorough": {"runs": 250000, "wall": 840}}
 RULE = ("each run draws a program (plus test/kconfserver/Kconfig at low weight), protocol version 1-3, knobs (parser, policy, set-order salt), "
         "an initial sdkconfig (absent / tool-written in a reachable configuration / hand-written) and a session of 1-25 set / reset (options, "
         "menu ids, all, unknown ids) / load / save requests with valid and invalid targets and values; session length is drawn so every prefix "
@@ -42,8 +42,11 @@ def generate(r, tier):
     k = r.random()
     if k < 0.15:
         prog = kgen.gen_menu_program(r)  # nested menus: menu visibility is aggregated bottom-up
+    elif k < 0.4:
+        # small programs dense in reverse dependencies and bare helper options (a long-running server is where stale caches show)
+        prog = kgen.gen_program(r, lo=3, hi=8, feats=["set", "setdefault", "select", "imply", "choice", "menu"], p_rev=3.0, p_bare=0.3)
     else:
-        prog = kgen.gen_program(r, hi=18 if big else 11, p_nodefault=0.15 if k < 0.4 else 0.0)
+        prog = kgen.gen_program(r, hi=18 if big else 11, p_nodefault=0.15 if k < 0.6 else 0.0)
     sc = {"prog": prog, "parser": kgen.pick_parser(r, prog, 0.04), "hash_salt": r.getrandbits(32), "policy": r.choice([None, None, "kconfig"]),
           "version": r.choice([1, 2, 2, 3, 3, 3])}
     sc["renames"] = kgen.rename_table(r, prog)[0] if r.random() < 0.2 else None
